@@ -31,6 +31,27 @@ TEXT = {
             "libc formatting is modelled (S-FMT interpretive model of the format string the real code passes), cross-checked against the sandbox libc on 1.1e6 seeded cases per run."),
 }
 
+TEXT.update({
+    "C02": ("the clauses reachable without trigonometry: argument validation and result hand-over of latLngToCell for every double bit pattern and every int resolution (E_RES_DOMAIN / E_LATLNG_DOMAIN, no index written, geometry never reached on rejected input), and the planar rounding kernel _hex2dToCoordIJK: on stated grid windows the chosen hexagon contains the point (three-axis test) and cell centres round to their cell; lattice->index is C01/C03.",
+            "containment against the cellToBoundary oracle, the angular tolerance, poles/antimeridian and 'always succeeds' are NOT decided (closest face + gnomonic projection are libm trig: no bit-precise model in any installed engine)."),
+    "C06": ("lossless round trip compact->uncompact and exact sizes for every set of 3 (thorough 5) distinct valid cells in every order at several resolutions; uncompactCells capacity clause (never writes beyond the capacity, E_MEMORY_BOUNDS / E_RES_MISMATCH) for every pair of cells, every capacity 0-14; complete child families of an arbitrary parent compacting to the parent (thorough, memory class X, reported undecided when it does not fit).",
+            "fully symbolic sets of >= 6 cells and multi-round compaction are outside (hash-probe arithmetic over symbolic array indexes is SAT-hard, probed); own loop models of memcpy/memset."),
+    "C08": ("the lattice / count / unit clauses: cellAreaKm2 = Rads2*R^2 and cellAreaM2 = Km2*10^6 bit-exactly with error propagation (glue); vertex counts of cellToBoundary (6, up to 8 at odd res; 5/10 for pentagons; never more than 10 written) with the projection stubbed, res 0-1; shared-corner lattice identity across an edge, res 0-1 (thorough).",
+            "every statement about lat/lng values - orientation, 1e-12 coincidence across face projections, cellAreaRads2, the 4*pi sum - is NOT decided (trig; symbolic FP division in _v2dIntersect)."),
+    "C12": ("one query per exported integer API on arbitrary 64-bit words / ints / int64 (invalid digits, modes, base cells 122-127 included), library built WITHOUT NDEBUG so every NEVER/ALWAYS/assert is a proof obligation, CBMC bounds / pointer / overflow / shift / conversion / division checks on, output buffers malloc'ed at exactly the documented size; documented domain codes asserted.",
+            "digit-walking APIs are split by resolution field (0-2 quick, 0-5 and 15 thorough); k<=1; sets <= 4 words; APIs that reach trigonometry / the FP boundary code are not covered beyond their integer prefixes (C02/C03/C08/C19 jobs)."),
+    "C14": ("gridPathCellsSize == gridDistance+1 with identical error behaviour, gridPathCells writes exactly out[0..distance] in order, stops at the failing step and never writes beyond the announced size (glue, any component results, distance <= 3); a=b and every neighbour pair succeed with the path {a} / {a,b} end to end (res 0 quick, 0-3 thorough).",
+            "contiguity and end point for distance >= 2 are NOT decided: the floating-point interpolation kernel (symbolic x symbolic multiplication) gave no verdict on any back end."),
+    "C16": ("the memory clauses only: call protocol of cellsToLinkedMultiPolygon (graph destroyed exactly once on every path, partial result released and error returned when normalisation fails), destroyLinkedMultiPolygon frees every block of every result shape up to 2x2x2, h3SetToVertexGraph releases its graph when a boundary fails (thorough).",
+            "every geometric clause (components, orientation, closure, provenance, area) is NOT decided: needs real cell boundaries (trig) and point-in-loop tests (symbolic FP division)."),
+    "C17": ("the allocator is the harness' H3_ALLOC_PREFIX shim whose failure schedule is a symbolic bit per allocation: one query covers every failure point of every input in the bound. Obligations: failure => E_MEMORY_ALLOC, nothing left allocated on any path, no double free (CBMC free preconditions), E_MEMORY_ALLOC only on failure, full result when nothing fails.",
+            "compactCells 3 arbitrary words (6 thorough); areNeighborCells / gridDisk / gridDiskDistances k=1 on every cell of res 0-1 (0-3 thorough); experimental polyfill on triangles with 0-1 hole under over-approximated geometry, <= 3 geometry evaluations. Legacy polygonToCells (flood fill) is outside."),
+    "C18": ("reduction: if no library-owned object is ever written, calls on caller-owned buffers cannot interfere. The driver lists every static-lifetime non-const object of the freshly compiled library from the goto symbol table and every assignment rooted in one (new statics, memo tables, scratch buffers appear automatically); the solver decides the frame condition (bit-identical snapshots) for the seven existing mutable statics across the calls that reference them.",
+            "the step from the frame condition to 'all interleavings equal a sequential run' is an argument, not a query; libc's thread safety is trusted."),
+    "C19": ("assume-guarantee: the real getIcosahedronFaces against arbitrary vertex faces (distinct faces in first-seen order, -1 padding, E_FAILED exactly on overflow, nothing beyond maxFaceCount slots, class II pentagon delegation); on the real lattice code every hexagon vertex lies on the centre's face or an adjacent one and a hexagon touches at most one other face (res 0-1 quick, 0-2 thorough).",
+            "agreement with the nearest-face oracle in lat/lng is outside (trig); lattice components only at res 0-2 (coordinate arithmetic)."),
+})
+
 NA = {
 }
 
